@@ -8,6 +8,11 @@
 //   copies p1 p2 -> the same probe answered by (1) the Topology, (2) a BoundaryCondition::Clone()
 //        of its boundary, (3) a second Topology filled by CopyTopologyData: type, volume, stored
 //        matrix, shortest height (periodic types) and BCShortestConnection(p1,p2)
+//   bcnew <open|ortho|tric> <new|top> <9 reals> -> a held BoundaryCondition object `o` of that class:
+//        constructed directly and setBox(m), or Clone() of the boundary of a Topology given the box
+//   bcset <o|c> <9 reals> -> BoundaryCondition::setBox(m) on the held object;  bcclone -> c = o->Clone()
+//   bcquery <o|c> <n> {p1 p2}*n -> getBoxType, BoxVolume, getBox, getShortestBoxDimension (periodic
+//        classes) and BCShortestConnection(p1,p2) / (p2,p1) of the held object
 //   short -> Topology::ShortestBoxSize()
 //   pair x1 y1 z1 x2 y2 z2
 //        -> f = BCShortestConnection(p1,p2), b = BCShortestConnection(p2,p1),
@@ -46,6 +51,14 @@ int main() {
   std::cout.precision(17);
   std::unique_ptr<Topology> top;
   Bead *b0 = nullptr, *b1 = nullptr;
+  std::unique_ptr<BoundaryCondition> bco, bcc;
+  auto readm = [](std::istringstream &is) {
+    Eigen::Matrix3d m;
+    for (int i = 0; i < 3; ++i)
+      for (int j = 0; j < 3; ++j) is >> m(i, j);
+    if (!is) throw std::runtime_error("driver: short matrix");
+    return m;
+  };
   while (std::getline(std::cin, line)) {
     ++seq;
     std::istringstream in(line);
@@ -125,6 +138,63 @@ int main() {
         show("copy", t2.getBoxType(), t2.BoxVolume(), t2.getBox(), tper ? t2.ShortestBoxSize() : 0.0,
              t2.BCShortestConnection(p1, p2));
         std::cout << "copybeads " << t2.BeadCount() << std::endl;
+      } else if (cmd == "bcnew") {
+        std::string cls, how;
+        in >> cls >> how;
+        Eigen::Matrix3d m = readm(in);
+        bcc.reset();
+        if (how == "new") {
+          if (cls == "open")
+            bco.reset(new OpenBox());
+          else if (cls == "ortho")
+            bco.reset(new OrthorhombicBox());
+          else if (cls == "tric")
+            bco.reset(new TriclinicBox());
+          else
+            throw std::runtime_error("driver: unknown class " + cls);
+          bco->setBox(m);
+        } else {
+          Topology t;
+          t.setBox(m, cls == "open" ? BoundaryCondition::typeOpen
+                                    : cls == "ortho" ? BoundaryCondition::typeOrthorhombic
+                                                     : BoundaryCondition::typeTriclinic);
+          bco = t.getBoundary().Clone();
+        }
+        std::cout << "ok" << std::endl;
+      } else if (cmd == "bcset") {
+        std::string x;
+        in >> x;
+        Eigen::Matrix3d m = readm(in);
+        BoundaryCondition *bc = x == "o" ? bco.get() : bcc.get();
+        if (!bc) throw std::runtime_error("driver: no such object");
+        bc->setBox(m);
+        std::cout << "ok" << std::endl;
+      } else if (cmd == "bcclone") {
+        if (!bco) throw std::runtime_error("driver: no object");
+        bcc = bco->Clone();
+        std::cout << "ok" << std::endl;
+      } else if (cmd == "bcquery") {
+        std::string x;
+        int n;
+        in >> x >> n;
+        BoundaryCondition *bc = x == "o" ? bco.get() : bcc.get();
+        if (!bc) throw std::runtime_error("driver: no such object");
+        std::cout << "type " << tname(bc->getBoxType()) << " vol " << bc->BoxVolume() << " box";
+        const Eigen::Matrix3d &g = bc->getBox();
+        for (int i = 0; i < 3; ++i)
+          for (int j = 0; j < 3; ++j) std::cout << " " << g(i, j);
+        std::cout << std::endl;
+        if (bc->getBoxType() != BoundaryCondition::typeOpen)
+          std::cout << "short " << bc->getShortestBoxDimension() << std::endl;
+        for (int k = 0; k < n; ++k) {
+          Eigen::Vector3d p1, p2;
+          in >> p1[0] >> p1[1] >> p1[2] >> p2[0] >> p2[1] >> p2[2];
+          if (!in) throw std::runtime_error("driver: short probe list");
+          Eigen::Vector3d f = bc->BCShortestConnection(p1, p2);
+          Eigen::Vector3d b = bc->BCShortestConnection(p2, p1);
+          std::cout << "f " << f[0] << " " << f[1] << " " << f[2] << " b " << b[0] << " " << b[1] << " " << b[2]
+                    << " g " << f[0] << " " << f[1] << " " << f[2] << std::endl;
+        }
       } else if (cmd == "short") {
         std::cout << "short " << top->ShortestBoxSize() << std::endl;
       } else if (cmd == "pair") {
